@@ -142,7 +142,7 @@ const c17Rule = "case = shared reified node (sharded directory with cold cache /
 func TestC17_P_ConcurrentReads(t *testing.T) {
 	ev := newEvid(t, c17Rule)
 	rapid.Check(t, func(t *rapid.T) {
-		kind := rapid.SampledFrom([]string{"hamt-cold", "hamt-cold", "hamt-warm", "file", "file-oldstyle", "hamt-cold-faulty", "file-wide", "plaindir-wide"}).Draw(t, "kind")
+		kind := rapid.SampledFrom([]string{"hamt-cold", "hamt-cold", "hamt-warm", "file", "file-oldstyle", "hamt-cold-faulty", "file-wide", "plaindir-wide", "hamt-cold-flaky", "file-oldstyle-measured"}).Draw(t, "kind")
 		st := NewStore()
 		st.Yield = rapid.Bool().Draw(t, "yieldingStore") // every load gives up the processor, as a store blocking on I/O does
 		var root cid.Cid
@@ -171,6 +171,18 @@ func TestC17_P_ConcurrentReads(t *testing.T) {
 			if err != nil {
 				t.Fatalf("harness: %v", err)
 			}
+		} else if kind == "file-oldstyle-measured" {
+			// a file whose length has to be measured by opening its children (no FileSize, no BlockSizes, link nodes below
+			// the root), on a store that yields at every load: every goroutine starts by asking for the end
+			seed := rapid.IntRange(0, 200).Draw(t, "leafSeed")
+			m, data := oldStyleTree(rapid.IntRange(2, 4).Draw(t, "osWidth"), 2, rapid.IntRange(1, 5).Draw(t, "osLeaf"), &seed)
+			var err error
+			root, err = m.store(st, st.LinkSystem())
+			if err != nil {
+				t.Fatalf("harness: %v", err)
+			}
+			content = data
+			st.Yield = true
 		} else if kind == "file" || kind == "file-oldstyle" {
 			var fc *fileCase
 			if kind == "file" {
@@ -256,6 +268,16 @@ func TestC17_P_ConcurrentReads(t *testing.T) {
 						}
 					}
 				}
+				if kind == "file-oldstyle-measured" && len(scripts[i]) == 0 {
+					op = c17Op{Kind: "seek-end", A: op.A % int64(len(content)+1)}
+				}
+				if kind == "hamt-cold-flaky" && op.Kind != "lookup" && op.Kind != "lookup-node" && op.Kind != "lookup-segment" && op.Kind != "length" {
+					// (operations with an error channel of their own, so that "was hit by the fault" can be told per operation)
+					op = c17Op{Kind: "lookup", Arg: names[rapid.IntRange(0, len(names)-1).Draw(t, "flakyMember")]}
+					for _, c := range tree.HashPath(op.Arg) {
+						touched[i][c] = true
+					}
+				}
 				scripts[i] = append(scripts[i], op)
 			}
 		}
@@ -288,8 +310,35 @@ func TestC17_P_ConcurrentReads(t *testing.T) {
 				got[i] = c17RunScript(shared, scripts[i])
 			}(i)
 		}
+		if kind == "hamt-cold-flaky" {
+			// exactly one of the block loads of the concurrent phase fails, once (a transient storage error)
+			st.FaultKind = genFaultKind(t)
+			st.FailReadAt = len(st.ReadLog()) + rapid.IntRange(1, 6).Draw(t, "flakyLoad")
+		}
 		close(start)
 		c17Wait(&wg, fmt.Sprintf("%s, %d goroutines, scripts %+v", kind, g, scripts))
+		if kind == "hamt-cold-flaky" {
+			// one load failed, so at most one operation - the one that issued that load - may be affected, and it has to say so
+			hit := 0
+			for i := range scripts {
+				for j := range scripts[i] {
+					if got[i][j] == want[i][j] {
+						continue
+					}
+					hit++
+					if scripts[i][j].Kind == "length" && got[i][j] == "0" {
+						continue // (Length has no error channel)
+					}
+					if !strings.HasPrefix(got[i][j], "err:") {
+						t.Fatalf("C17: %s, %d goroutines, load #%d of the concurrent phase failing once: goroutine %d op %d %+v returned %q (alone and without fault: %q)", kind, g, st.FailReadAt, i, j, scripts[i][j], got[i][j], want[i][j])
+					}
+				}
+			}
+			if hit > 1 {
+				t.Fatalf("C17: %s, %d goroutines: ONE block load failed once, yet %d operations were affected (got %v, alone and without fault %v): an operation reported a failure that was another goroutine's", kind, g, hit, got, want)
+			}
+			got = want
+		}
 		for i := range scripts {
 			for j := range scripts[i] {
 				if got[i][j] != want[i][j] {
@@ -314,6 +363,7 @@ func TestC17_P_ConcurrentReads(t *testing.T) {
 			}
 		}
 		nt := (strings.HasPrefix(kind, "hamt-cold") && sharedShard) || strings.HasPrefix(kind, "file")
+		st.FailReadAt = 0
 		var mk []string
 		for k := range mix {
 			mk = append(mk, k)
